@@ -115,12 +115,14 @@ def fill(claim, NA):
 		  "Theorems (Props/C13.lean): for ANY pmf (list of non-negative rationals summing to one), any one-period cost G, fixed cost K and any number n = S-s of states: "
 		  "cost_telescopes (a pair (c, v) passing the decidable average-cost certificate gives J_T(i) + E[v(X_T)] = T c + v(i) for every horizon T and start state), W_bounded, "
 		  "avg_cost_converges (|J_T(i) - T c| <= 2B for all T: c IS the long-run average cost, rate 2B/T, exact arithmetic); expectation lemmas ex_add/ex_const/ex_le/ex_ge; "
-		  "m_zero; zfLoop_reports_cost / zf_reports_cost (the exact algorithm reports the cost of the pair it returns). The certificate for the model's own relative-value function "
-		  "is verified EXACTLY per instance by the driver (coverage.certificates_verified_exactly) and in-kernel for the worked example (S-s beyond the support). "
+		  "m_zero; zfLoop_reports_cost / zf_reports_cost (the exact algorithm reports the cost of the pair it returns). UNCONDITIONAL (Props/C13Cert.lean): renewal (m_j = [j=0] + "
+		  "sum_{l<=j} p_l m_{j-l}), triangle_swap, certificate_holds (the model's relative-value function passes the certificate for EVERY pmf with non-negative entries and p_0 < 1, every "
+		  "G, K and n >= 1) and ss_cost_is_long_run_average: for every s < S the value s_s_cost_discrete computes differs from J_T/T by at most 2B/T for all T and all starting states. "
+		  "The driver still verifies the certificate exactly per instance (coverage.certificates_verified_exactly). "
 		  "Tie: s_s_cost_discrete vs exact-rational model (1e-9) on random dyadic pmfs incl. zero-probability points, short supports, all s<S in a window; s_s_discrete_exact vs model "
 		  "search; stationary-distribution oracle and exhaustive window search on the Python result; Poisson entry point vs custom-pmf entry point on the Poisson pmf.",
-		  "Trusted: Lean kernel + 3 axioms; harness; SciPy poisson.pmf values (inputs). Open: that the model's v passes the certificate for every instance (verified per instance, not "
-		  "as a theorem); optimality of the Zheng-Federgruen search over all integer pairs (exhaustive window per instance = labelled test).")
+		  "Trusted: Lean kernel + 3 axioms; harness; SciPy poisson.pmf values (inputs; the Poisson pmf is truncated, so its entries sum to one only within rounding). Open: "
+		  "optimality of the Zheng-Federgruen search over all integer pairs (exhaustive window per instance = labelled test).")
 
 	claim('C14',
 		  "Theorems (Props/C14.lean), over an ABSTRACT one-period cost G : Int -> Rat: cost_def (the Poisson (r,Q) cost is (K lambda + sum_{y=r+1}^{r+Q} G(y))/Q with the window-sum "
